@@ -52,7 +52,8 @@ Record trec := {
   tr_outs : list (str * (bool * str));       (* port, streaming?, final path *)
   tr_status : tstatus;
   tr_content : str;
-  tr_command : res
+  tr_command : res;
+  tr_emitted : bool                          (* false: formed after an earlier round of its process failed; may run, is never forwarded *)
 }.
 
 (* --- path validity: ^[0-9A-Za-z/._-]+$ --- *)
@@ -156,7 +157,7 @@ Definition run_one (p : proc) (w : world) (ins : list (str * item)) (pars : list
   let ins1 := first_in_path ins in
   let tags : list (str * str) := [] in
   let mk st c outs cmd := {| tr_proc := p_name p; tr_ins := ins; tr_pars := pars; tr_outs := outs;
-                             tr_status := st; tr_content := c; tr_command := cmd |} in
+                             tr_status := st; tr_content := c; tr_command := cmd; tr_emitted := true |} in
   (* parameters must be non-empty wherever the command pattern uses them; checked by format_command *)
   let outs_r := map (fun o => (op_name o,
                     match op_pat o with
@@ -200,7 +201,8 @@ Definition min_len {A} (cols : list (list A)) : nat :=
 
 Record acc := { a_streams : streams; a_world : world; a_tasks : list trec; a_failed : bool }.
 
-(* one process: tasks are formed round by round; after the first failing round nothing more is emitted *)
+(* one process: tasks are formed round by round; after the first failing round later tasks may still run (they are spawned
+   concurrently) but nothing more is emitted, because outputs leave a process in order *)
 Definition eval_proc (idx : nat) (p : proc) (a : acc) : acc :=
   let ss := a_streams a in
   let incols := map (fun i => flat_map (fun u => st_get ss (fst u) (snd u)) (ip_ups i)) (p_ins p) in
@@ -211,16 +213,15 @@ Definition eval_proc (idx : nat) (p : proc) (a : acc) : acc :=
   let rounds := combine inrows parrows in
   let step := fun (st : acc * list (str * list item) * bool) (t : list item * list item) =>
     let '(a, outstreams, stopped) := st in
-    if stopped then st else
     let ins := combine (map ip_name (p_ins p)) (fst t) in
     let pars := combine (map fst (p_pars p)) (map (fun i => match i with IPath v => v | ISub _ => [] end) (snd t)) in
-    let (tr, w') := run_one p (a_world a) ins pars in
-    let a' := {| a_streams := a_streams a; a_world := w'; a_tasks := a_tasks a ++ [tr];
-                 a_failed := a_failed a || match tr_status tr with TFail | TInvalid => true | _ => false end |} in
-    match tr_status tr with
-    | TFail | TInvalid => (a', outstreams, true)
-    | _ => (a', map (fun os => (fst os, snd os ++ match lookup (fst os) (tr_outs tr) with Some x => [IPath (snd x)] | None => [] end)) outstreams, false)
-    end in
+    let (tr0, w') := run_one p (a_world a) ins pars in
+    let tr := {| tr_proc := tr_proc tr0; tr_ins := tr_ins tr0; tr_pars := tr_pars tr0; tr_outs := tr_outs tr0; tr_status := tr_status tr0;
+                 tr_content := tr_content tr0; tr_command := tr_command tr0; tr_emitted := negb stopped |} in
+    let bad := match tr_status tr with TFail | TInvalid => true | _ => false end in
+    let a' := {| a_streams := a_streams a; a_world := w'; a_tasks := a_tasks a ++ [tr]; a_failed := a_failed a || bad |} in
+    if stopped || bad then (a', outstreams, true)
+    else (a', map (fun os => (fst os, snd os ++ match lookup (fst os) (tr_outs tr) with Some x => [IPath (snd x)] | None => [] end)) outstreams, false) in
   let '(a', outstreams, _) := fold_left step rounds (a, map (fun o => (op_name o, [])) (p_outs p), false) in
   {| a_streams := map (fun os => (idx, fst os, snd os)) outstreams ++ a_streams a';
      a_world := a_world a'; a_tasks := a_tasks a'; a_failed := a_failed a' |}.
